@@ -54,6 +54,19 @@ fn pick_name(r: &mut Rng, pool: &[&str], dom: Dom) -> String {
 }
 
 fn num(r: &mut Rng, dom: Dom) -> u128 {
+    if dom == Dom::Wild && r.chance(1, 7) {
+        // numbers around the 32 and 64 bit boundaries (narrowing in the cache writer, usize arithmetic)
+        return *r.pick(&[
+            (1u128 << 32) - 1,
+            1u128 << 32,
+            (1u128 << 32) + 5,
+            2 * (1u128 << 32),
+            1u128 << 63,
+            (1u128 << 64) - 2,
+            (1u128 << 64) - 1,
+            1u128 << 64,
+        ]);
+    }
     match r.below(30) {
         0 => 65536 + r.below(10) as u128,
         1 => (1u128 << 31) + r.below(3) as u128,
@@ -184,7 +197,7 @@ pub fn gen_mapping(r: &mut Rng, o: &GenOpts) -> String {
 
 fn source_file_header(r: &mut Rng, s: &mut String, nl: &str, dom: Dom) {
     match r.below(if dom == Dom::Wild { 8 } else { 7 }) {
-        0 => s.push_str("# sourceFile"), // resets the file (F7)
+        0 | 2 => s.push_str("# sourceFile"), // resets the file (F7)
         1 => s.push_str(&format!("# sourceFile: {}", r.pick(FILES))),
         7 => s.push_str("# sourceFile:"), // empty value: outside the representable domain
         _ => s.push_str(&format!("# {{\"id\":\"sourceFile\",\"fileName\":\"{}\"}}", r.pick(FILES))),
@@ -459,7 +472,18 @@ pub fn corrupt(r: &mut Rng, valid: &[u8]) -> Vec<u8> {
     let str0 = al(par0 + 36 * np);
     let n_edits = 1 + r.below(3);
     for _ in 0..n_edits {
-        match r.below(10) {
+        match r.below(13) {
+            10 | 11 | 12 if nm > 0 => {
+                // (same as 9, more weight)
+                let i = r.below(nm);
+                let f = *r.pick(&[1usize, 2, 6, 7]);
+                let off = mem0 + i * 36 + 4 * f;
+                if off + 4 <= b.len() {
+                    let cur = rd(&b, off);
+                    let v = *r.pick(&[0u32, 1, cur.wrapping_sub(1), cur.wrapping_add(1), 5, 1 << 31, u32::MAX - 1, u32::MAX]);
+                    b[off..off + 4].copy_from_slice(&v.to_le_bytes());
+                }
+            }
             0 | 1 | 2 | 3 => {
                 // any 32-bit field := boundary value
                 let words = b.len().min(str0) / 4;
@@ -504,6 +528,18 @@ pub fn corrupt(r: &mut Rng, valid: &[u8]) -> Vec<u8> {
                 if str0 < b.len() {
                     let pos = str0 + r.below(b.len() - str0);
                     b[pos] = *r.pick(&[0u8, 0x80, 0xff, 0xc3, 0x7f, 0x81, 1]);
+                }
+            }
+            9 if nm > 0 => {
+                // a member's line fields := boundary values (untrusted line arithmetic)
+                let (start, n) = if np > 0 && r.chance(1, 4) { (par0, np) } else { (mem0, nm) };
+                let i = r.below(n);
+                let f = *r.pick(&[1usize, 2, 6, 7]);
+                let off = start + i * 36 + 4 * f;
+                if off + 4 <= b.len() {
+                    let cur = rd(&b, off);
+                    let v = *r.pick(&[0u32, 1, cur.wrapping_sub(1), cur.wrapping_add(1), 5, 1 << 31, u32::MAX - 1, u32::MAX]);
+                    b[off..off + 4].copy_from_slice(&v.to_le_bytes());
                 }
             }
             8 => {
